@@ -166,6 +166,11 @@ func hostileFrames(token *int) []Frame {
 			{"T.Add", "[%d,1]", "call-ok"}, {"T.Nope", "[%d]", "call-unknown"}, {"T.Add", "[%d]", "call-arity"},
 			{"T.Add", `["a",%d]`, "call-badtype"}, {"T.Add", `{"a":%d}`, "call-nonarray"}, {"T.Boom", "[%d]", "call-panics"},
 			{"T.Void", "", "call-noparams"},
+			// unknown names of every shape: trailing / leading / doubled separators, other case, no separator, blanks, non-ASCII
+			{"T.", "[%d]", "call-unknown-shape"}, {".", "[%d]", "call-unknown-shape"}, {"T.Add.", "[%d,1]", "call-unknown-shape"},
+			{".Add", "[%d,1]", "call-unknown-shape"}, {"T..Add", "[%d,1]", "call-unknown-shape"}, {"T.add", "[%d,1]", "call-unknown-shape"},
+			{"t.Add", "[%d,1]", "call-unknown-shape"}, {"Add", "[%d,1]", "call-unknown-shape"}, {" ", "[%d]", "call-unknown-shape"},
+			{"T.Ädd", "[%d,1]", "call-unknown-shape"}, {"T/Add", "[%d,1]", "call-unknown-shape"}, {"xrpc.", "[%d]", "call-unknown-shape"},
 		} {
 			*token++
 			ptxt := c.p
